@@ -4,9 +4,9 @@ import "strings"
 
 func init() {
 	register(propSpec{
-		ID: "C08",
+		ID:          "C08",
 		Explanation: "Structural necessary conditions of the resumption-monad semantics, decided for every path of package seq: each exported combinator is abstractly evaluated (finite-domain abstract interpretation of its SSA, nothing is run) on symbolic arguments and the Seq it returns is applied to a symbolic (c,k); the resulting event traces are compared with the reference semantics of the property for all 4 signals, both nil-nesses of cond/post, both answers of cond, all 5 body behaviours (suspend / completes with each signal), resumption after suspension and a second run of the same Seq value. Decides: signal roles, Combine's short-circuit table (hence associativity and Normal as unit), Delay, Bind/BindRecv suspension, step take-and-clear, Start, For/While/Loop ordering of post/cond/body and signal translation, laziness of every constructor. Not decided: Seq values written by users; numeric stack bounds (C17).",
-		Trusted: []string{"Go semantics of closures and calls", "go/ssa construction (x/tools v0.29.0)", "continuations are used linearly by well-formed Seq values"},
+		Trusted:     []string{"Go semantics of closures and calls", "go/ssa construction (x/tools v0.29.0)", "continuations are used linearly by well-formed Seq values"},
 		Run: func(c *Ctx) {
 			s := newSeqRT(c)
 			c.guard("SEQ.ROLE", func() { s.ruleRole() })
@@ -35,9 +35,9 @@ func init() {
 
 func init() {
 	register(propSpec{
-		ID: "C09",
+		ID:          "C09",
 		Explanation: "The iterator protocol is decided observationally: seq.Start(opaque body) is evaluated abstractly and the concrete iterator it returns is driven through every history of MoveNext / Send(v) / Current / Result up to a depth bound (5 quick, 8 thorough; equal abstract states are merged), the generator body being an oracle that yields (storing the pending step as Bind does) or returns at every step it is run. After each operation the returned values and which piece of generator code ran with which received value are compared with the protocol of the property: an exhausted iterator runs nothing and reports false; Send primes only a never-advanced iterator and passes its value to the pending yield; Current is the last delivered value (zero before the first advance and after exhaustion) and stores nothing; Result is the returned value once the generator has completed. Independent of how the generator represents its state.",
-		Trusted: []string{"Go semantics of closures and calls", "go/ssa construction (x/tools v0.29.0)"},
+		Trusted:     []string{"Go semantics of closures and calls", "go/ssa construction (x/tools v0.29.0)"},
 		Run: func(c *Ctx) {
 			s := newSeqRT(c)
 			c.guard("SEQ.GEN", s.ruleGenHist)
@@ -53,9 +53,9 @@ func init() {
 
 func init() {
 	register(propSpec{
-		ID: "C17",
+		ID:          "C17",
 		Explanation: "Decides the structural cause of per-iteration stack growth, not a numeric bound: For/While/Loop are abstractly evaluated with a body that completes synchronously (Normal and Continue) for several iterations, before and after a resumption; the height of the abstract activation stack at successive calls of the body must not increase (abstract stack-height analysis over the K1 state graph). Plus: no cycle among statically resolved calls in package seq. Growth that is linear in term size or delegation depth is not a violation.",
-		Trusted: []string{"stack depth contributed by user thunks is bounded by term size", "go/ssa construction"},
+		Trusted:     []string{"stack depth contributed by user thunks is bounded by term size", "go/ssa construction"},
 		Run: func(c *Ctx) {
 			s := newSeqRT(c)
 			c.guard("SEQ.STACK.HEIGHT", s.ruleStack)
@@ -66,9 +66,9 @@ func init() {
 		},
 	})
 	register(propSpec{
-		ID: "C18",
+		ID:          "C18",
 		Explanation: "Decides the mechanism the property rests on: (SEQ.SYNC) package seq contains no go/defer/recover/select/send and no sync/time/runtime call, so a panic raised by a step can only unwind through the advancing call; (SEQ.CHAIN) MoveNext and Send call the pending resumption synchronously and overwrite current/next only after it returned, so values delivered earlier are untouched when it panics; (SEQ.TAKE/SEQ.START/SEQ.LAZY) a resumption runs the thunk inside the call and constructors run nothing; (RW.NOASYNC) the rewriter never emits go/defer/select/recover into generated code. All clauses are structural.",
-		Trusted: []string{"Go panic propagation semantics", "go/ssa construction"},
+		Trusted:     []string{"Go panic propagation semantics", "go/ssa construction"},
 		Run: func(c *Ctx) {
 			s := newSeqRT(c)
 			c.guard("SEQ.SYNC", s.ruleSync)
@@ -129,9 +129,9 @@ func init() {
 		},
 	})
 	register(propSpec{
-		ID: "C14",
+		ID:          "C14",
 		Explanation: "Decides the structural cause of independence (no state reachable from two iterators through the runtime or through generated code): (SEQ.STATE) package seq has no package-level variable touched by runtime code, and no closure created by a Seq constructor assigns a variable that lives outside the returned Seq (state is allocated per run); (SEQ.START) every Start call allocates its own generator and coroutine state; (SEQ.FOR second-run) a second run of the same loop Seq starts from scratch; (RW.NODECL) the rewriter never introduces declarations or rewrites a file's declaration list. Data races in user code are out of scope.",
-		Trusted: []string{"Go memory model for unshared data", "go/ssa construction"},
+		Trusted:     []string{"Go memory model for unshared data", "go/ssa construction"},
 		Run: func(c *Ctx) {
 			s := newSeqRT(c)
 			c.guard("SEQ.STATE", s.ruleState)
@@ -167,9 +167,9 @@ func init() {
 
 func init() {
 	register(propSpec{
-		ID: "C10",
+		ID:          "C10",
 		Explanation: "Each built-in range iterator is decided by an inductive argument over its abstract state, extracted from the SSA of its constructor, MoveNext and Current (base: the constructor's state advanced once; step: a fully symbolic state advanced once): integer and slice iterators have first key 0, key' = key+1, guard key' < n / len(own slice header) (length snapshot) and live element reads; the string iterator keeps the string itself, decodes the remaining bytes with unicode/utf8, reports the offset it decoded at and advances by the decoder's width; the map iterator delegates to reflect.MapRange of the live map and no path of Current can panic (nil interface keys/values); the channel iterator reports the comma-ok receive; every Current is pure. This decides 0..n-1 / nothing for n<=0 / byte offsets / U+FFFD width 1 / deleted-before-reached for every input at once. Not decided: element equality beyond these facts; correctness of reflect and unicode/utf8.",
-		Trusted: []string{"reflect.MapIter iterates like Go's range over a map", "unicode/utf8.DecodeRuneInString decodes like Go's range over a string", "go/ssa construction"},
+		Trusted:     []string{"reflect.MapIter iterates like Go's range over a map", "unicode/utf8.DecodeRuneInString decodes like Go's range over a string", "go/ssa construction"},
 		Run: func(c *Ctx) {
 			s := newSeqRT(c)
 			s.ruleIters()
